@@ -30,7 +30,7 @@ import (
 	"github.com/dolthub/dolt/go/zzverif/vt"
 )
 
-const c12MapRule = "a target content (0..20000 entries; row-shaped maps with 1-2 key fields and 1-3 nullable value fields, secondary-index-shaped maps with 2-3 key fields, nullable suffix fields and empty values, or maps with a few 2-60 KB values) is built in bulk and reached again by 2-3 drawn histories: bulk build of a different content (empty, subset, superset, mixed edits incl. edits at leaf boundaries, or an unrelated map of another height) followed by the net edits toward the target through MutableMap (maxPending in {1,2,7,64,default}, sorted or strided order, drawn flush batch) or MutateMapWithTupleIter (one or several sorted streams); the same start tree reached by mutating the target tree; and prolly.MergeMaps of two sides that split the changes between a base and the target (disjoint or identical on both sides). All must have the bulk tree's root hash, height and count; the bulk tree's content is read back and compared with the target. Non-trivial: target height>=2 and at least one history whose start tree has a different set of leaf-boundary keys than the target (a chunk boundary was created, removed or moved) or a different height; distinct by hash of (schema, size, target ops, history descriptions)."
+const c12MapRule = "a target content (0..24000 entries; row-shaped maps with 1-2 key fields and 1-3 nullable value fields, secondary-index-shaped maps with 2-3 key fields, nullable suffix fields and empty values, or maps with a few 2-60 KB values) (one target in six cut right after a leaf boundary) is built in bulk, must have a canonical root (leaf, or internal with >= 2 children), and is reached again by 2-3 drawn histories: bulk build of a different content (empty, subset, superset, mixed edits incl. edits at leaf boundaries, or an unrelated map of another height) followed by the net edits toward the target through MutableMap (maxPending in {1,2,7,64,default}, sorted or strided order, drawn flush batch) or MutateMapWithTupleIter (one or several sorted streams); the same start tree reached by mutating the target tree; and prolly.MergeMaps of two sides that split the changes between a base and the target (disjoint or identical on both sides). All must have the bulk tree's root hash, height and count; the bulk tree's content is read back and compared with the target. Non-trivial: target height>=2 and at least one history whose start tree has a different set of leaf-boundary keys than the target (a chunk boundary was created, removed or moved) or a different height; distinct by hash of (schema, size, target ops, history descriptions)."
 
 const (
 	c12FlavorRows  = "rows"
@@ -342,7 +342,7 @@ func c12MapCase(t *rapid.T, rec *vh.Recorder) {
 	case sizeClass < 17:
 		n = rapid.IntRange(600, 4000).Draw(t, "n")
 	default:
-		n = rapid.IntRange(9000, 20000).Draw(t, "n")
+		n = rapid.IntRange(14000, 24000).Draw(t, "n")
 	}
 	if flavor == c12FlavorBig && n > 1500 {
 		n = 300 + n%1200
@@ -385,6 +385,36 @@ func c12MapCase(t *rapid.T, rec *vh.Recorder) {
 	if s.shape0, err = w.shape(s.h0); err != nil {
 		t.Fatalf("walk of bulk tree: %v", err)
 	}
+	// one target in six is cut right after a leaf boundary, so that the content ends exactly on
+	// a natural chunk boundary (the last chunk of every level is then a "full" one)
+	cut := false
+	if ib := s.shape0.innerBounds(); len(ib) > 0 && rapid.IntRange(0, 5).Draw(t, "cutAtBoundary") == 0 {
+		j := rapid.IntRange(0, len(ib)-1).Draw(t, "cutLeaf")
+		if rapid.Bool().Draw(t, "cutFirstLeaf") {
+			j = 0
+		}
+		s.T = vt.FromSorted(append([]vt.Entry(nil), s.T.E[:ib[j]+1]...))
+		s.gen.note("cut after leaf %d (#%d)", j, ib[j])
+		cut = true
+		if s.h0, err = w.bulk(s.T); err != nil {
+			t.Fatalf("bulk build of cut target: %v", err)
+		}
+		got, err := w.readMap(s.h0)
+		if err != nil || !entriesEqual(got, s.T.E) {
+			t.Fatalf("bulk build of cut target does not read back (err %v): got %d entries, want %d", err, len(got), s.T.Len())
+		}
+		if s.shape0, err = w.shape(s.h0); err != nil {
+			t.Fatalf("walk of bulk tree: %v", err)
+		}
+	}
+	// canonical root: an internal root with a single child must have been collapsed
+	// (chunker.Done / getCanonicalRoot); every history is compared with this tree's hash
+	if root := s.h0.Node(); root.Level() > 0 && root.Count() < 2 {
+		t.Fatalf("bulk build of %d entries has a non-canonical root: level %d with %d child(ren)", s.T.Len(), root.Level(), root.Count())
+	}
+	if s.h0.Height() != len(s.shape0.perLvl) || s.shape0.perLvl[s.h0.Height()-1] != 1 {
+		t.Fatalf("bulk tree: height %d but nodes per level %v", s.h0.Height(), s.shape0.perLvl)
+	}
 	s.bk0 = c12BoundaryKeys(s.shape0, s.T)
 	nh := rapid.IntRange(2, 3).Draw(t, "histories")
 	for i := 0; i < nh; i++ {
@@ -400,6 +430,9 @@ func c12MapCase(t *rapid.T, rec *vh.Recorder) {
 	cl := []string{"flavor=" + flavor, fmt.Sprintf("height=%d", height)}
 	if maxBig >= 49500 {
 		cl = append(cl, "forced_size_boundary_candidate")
+	}
+	if cut {
+		cl = append(cl, "ends_on_boundary")
 	}
 	if s.shape0.minLeaf == 1 && s.T.Len() > 1 {
 		cl = append(cl, "single_entry_leaf")
@@ -544,7 +577,11 @@ func c12StrideKV(in []c12KV, start, stride int) []c12KV {
 	return out
 }
 
-func c12EditorCase(t *rapid.T, rec *vh.Recorder, isAddr bool) {
+// knownClosure: finding C12-closure-history-dependent is open (the shape of a closure depends on
+// how its entries were split over editor sessions): multi-session histories are then compared
+// by content and height>=1 only, and hash equality is asserted for single-session histories in
+// different insertion orders.
+func c12EditorCase(t *rapid.T, rec *vh.Recorder, isAddr, knownClosure bool) {
 	ctx := context.Background()
 	ns := tree.NewTestNodeStore()
 	sizeClass := rapid.IntRange(0, 9).Draw(t, "sizeClass")
@@ -698,13 +735,29 @@ func c12EditorCase(t *rapid.T, rec *vh.Recorder, isAddr bool) {
 			t.Fatalf("detour cleanup session: %v", err)
 		}
 	}
+	// one more single-session history: every entry in strided order, one flush
+	h4 := fresh()
+	if err := h4.apply(ctx, order); err != nil {
+		t.Fatalf("strided single session: %v", err)
+	}
+	if h4.hashOf() != h1.hashOf() || h4.height() != h1.height() {
+		t.Fatalf("%s: one session in strided order (%d,%d) gives hash %s height %d; one session in sorted order gives %s height %d", kind, a, b, h4.hashOf(), h4.height(), h1.hashOf(), h1.height())
+	}
 	for i, h := range []c12Editable{h2, h3} {
+		g, gerr := h.readAll(ctx)
+		same := gerr == nil && len(g) == len(target)
+		for j := 0; same && j < len(g); j++ {
+			same = bytes.Equal(g[j].k, target[j].k) && (!isAddr || bytes.Equal(g[j].v, target[j].v))
+		}
+		if !same || h.height() < 1 {
+			t.Fatalf("%s: history %d (0=strided batches of %d, 1=detour with %d extras, %d interim values in %d sessions) does not hold the target content (read %d entries, err %v, want %d; height %d)",
+				kind, i, batch, nExtra, nInterim, split, len(g), gerr, len(target), h.height())
+		}
+		if knownClosure {
+			rec.Excluded(1)
+			continue
+		}
 		if h.hashOf() != h1.hashOf() || h.height() != h1.height() {
-			g, _ := h.readAll(ctx)
-			same := len(g) == len(target)
-			for j := 0; same && j < len(g); j++ {
-				same = bytes.Equal(g[j].k, target[j].k) && (!isAddr || bytes.Equal(g[j].v, target[j].v))
-			}
 			t.Fatalf("%s: history %d (0=strided batches of %d, 1=detour with %d extras, %d interim values in %d sessions) ends in hash %s height %d; sorted single session gives %s height %d; same content=%v",
 				kind, i, batch, nExtra, nInterim, split, h.hashOf(), h.height(), h1.hashOf(), h1.height(), same)
 		}
@@ -714,6 +767,9 @@ func c12EditorCase(t *rapid.T, rec *vh.Recorder, isAddr bool) {
 		cl = append(cl, "height_changed")
 	}
 	nontrivial := h1.height() >= 2 && (len(s2) > 0 || len(readd) > 0)
+	if knownClosure {
+		cl = append(cl, "multi_session_hash_excluded")
+	}
 	rec.Case(fmt.Sprintf("%s n=%d seed=%d stride=(%d,%d) batch=%d extras=%d contiguous=%v@%d interim=%d sessions=%d", kind, n, seed, a, b, batch, nExtra, runExtra, exStart, nInterim, split),
 		nontrivial, cl...)
 }
@@ -955,33 +1011,34 @@ func TestVerif_C12(t *testing.T) {
 			"key+value of one entry stays below 61 KB (a pair above 64 KB cannot be stored in a node at all)",
 			"JSON documents are not covered here")
 		defer rec.Write(t)
-		vh.Check(t, "histories", 170, 600, func(rt *rapid.T) { c12MapCase(rt, rec) })
+		vh.Check(t, "histories", 220, 700, func(rt *rapid.T) { c12MapCase(rt, rec) })
 	})
 	t.Run("addrmap", func(t *testing.T) {
 		rec := vh.NewRecorder("C12", "addrmap", "exploration", c12EditorRule)
 		defer rec.Write(t)
-		vh.Check(t, "histories", 40, 150, func(rt *rapid.T) { c12EditorCase(rt, rec, true) })
+		vh.Check(t, "histories", 40, 150, func(rt *rapid.T) { c12EditorCase(rt, rec, true, false) })
 	})
 	t.Run("closure", func(t *testing.T) {
 		rec := vh.NewRecorder("C12", "closure", "exploration", c12EditorRule,
-			"CommitClosureEditor.Delete is not exercised (no caller; closures only grow)")
+			"CommitClosureEditor.Delete is not exercised (no caller; closures only grow)",
+			"while known finding C12-closure-history-dependent is open, root hashes of closures built in several editor sessions are not compared (counted as excluded_known); their content and the hash of single-session builds in different insertion orders still are")
 		defer rec.Write(t)
 		one, two, same, err := c12PinnedClosureSessions(3000)
 		if err != nil {
 			t.Fatalf("pinned closure case: %v", err)
 		}
+		known := false
 		if one != two {
 			what := fmt.Sprintf("3000 closure keys added in one editor session give root %s, the same keys in two sorted sessions (1500 + 1500) give %s (same content: %v)", one, two, same)
 			if vh.OpenFinding("C12", c12ClosureFinding) {
 				vh.ReportKnown("C12", c12ClosureFinding, what)
-				rec.Excluded(1)
-				rec.Class("closure_histories_skipped_known_finding", 1)
-				return
+				known = true
+			} else {
+				vh.NoteViolation(t.Name(), "", fmt.Sprintf(`{"case":"CommitClosure: keys (height i/3+1, c12Addr(i,0)) for i<3000, sorted; history A = one Editor session Add all + Flush; history B = two sessions (first 1500, then the other 1500)","hash_A":"%s","hash_B":"%s","same_content":%v}`, one, two, same))
+				t.Errorf("CommitClosure shape depends on history: %s", what)
 			}
-			vh.NoteViolation(t.Name(), "", fmt.Sprintf(`{"case":"CommitClosure: keys (height i/3+1, c12Addr(i,0)) for i<3000, sorted; history A = one Editor session Add all + Flush; history B = two sessions (first 1500, then the other 1500)","hash_A":"%s","hash_B":"%s","same_content":%v}`, one, two, same))
-			t.Errorf("CommitClosure shape depends on history: %s", what)
 		}
-		vh.Check(t, "histories", 30, 120, func(rt *rapid.T) { c12EditorCase(rt, rec, false) })
+		vh.Check(t, "histories", 30, 120, func(rt *rapid.T) { c12EditorCase(rt, rec, false, known) })
 	})
 	t.Run("blobs", func(t *testing.T) {
 		rec := vh.NewRecorder("C12", "blobs", "exploration", c12BlobRule,
